@@ -231,6 +231,10 @@ func vBez3(p0, p1, p2, p3, t Fl) Fl {
 //@   ensures[horizontal] result == nil && (op == 'H' || op == 'h') ==> len(c.points) >= 1 && c.currentX == c.points[len(c.points)-1] && c.currentY == old(c.currentY)
 //@   ensures[lastkey] result == nil ==> c.lastKey == op
 //@   ensures[smooth-cubic-end] result == nil && (op == 'S' || op == 's') ==> len(c.points) >= 4 && c.currentX == c.points[len(c.points)-2] && c.currentY == c.points[len(c.points)-1] && c.cntlPtX == c.points[len(c.points)-4] && c.cntlPtY == c.points[len(c.points)-3]
+// the control point remembered for a following smooth command is the LAST control point drawn:
+// the control of the last Q group, the second control of the last C group (SVG 1.1 §8.3.6-8.3.7)
+//@   ensures[quad-control] result == nil && (op == 'Q' || op == 'q') ==> len(c.points) >= 4 && c.cntlPtX == c.points[len(c.points)-4] && c.cntlPtY == c.points[len(c.points)-3]
+//@   ensures[cubic-control] result == nil && (op == 'C' || op == 'c') ==> len(c.points) >= 6 && c.cntlPtX == c.points[len(c.points)-4] && c.cntlPtY == c.points[len(c.points)-3]
 //@   ensures[smooth-quad-end] result == nil && (op == 'T' || op == 't') ==> len(c.points) >= 2 && c.currentX == c.points[len(c.points)-2] && c.currentY == c.points[len(c.points)-1]
 // the segments handed to the path builder, per command (SVG 1.1 §8.3.2-8.3.7)
 //@   call moveTo#1 assert arg1 == c.points[0] && arg2 == c.points[1]
